@@ -132,6 +132,14 @@ pub trait FbS { const V: bool = false; } impl<T: ?Sized> FbS for QS<T> {}
 pub trait FbY { const V: bool = false; } impl<T: ?Sized> FbY for QY<T> {}
 impl<T: ?Sized + Send> QS<T> { pub const V: bool = true; }
 impl<T: ?Sized + Sync> QY<T> { pub const V: bool = true; }
+// the same selection for types that cannot be named (opaque return types): inherent method over trait method, the type taken
+// from a closure's return type - the closure is never called
+impl<T: ?Sized + Send> QS<T> { pub fn v(&self) -> bool { true } }
+impl<T: ?Sized + Sync> QY<T> { pub fn v(&self) -> bool { true } }
+pub trait FbSm { fn v(&self) -> bool { false } } impl<T: ?Sized> FbSm for QS<T> {}
+pub trait FbYm { fn v(&self) -> bool { false } } impl<T: ?Sized> FbYm for QY<T> {}
+pub fn ret_qs<A, R, F: FnOnce(A) -> R>(_f: F) -> QS<R> { QS(PhantomData) }
+pub fn ret_qy<A, R, F: FnOnce(A) -> R>(_f: F) -> QY<R> { QY(PhantomData) }
 '''
 
 def ts_type(ts):
@@ -157,6 +165,8 @@ def type_expr(c):
         "LazyCloneOfElementRef": "any_vec::any_value::LazyClone<'static, any_vec::element::Element<'static, %s, %s>>" % (ts, b),
         "AnyVecRef": "any_vec::AnyVecRef<'static, %s, %s>" % (e, b),
         "AnyVecMut": "any_vec::AnyVecMut<'static, %s, %s>" % (e, b),
+        "TypedDrain": "(return type of any_vec::AnyVecMut<'static, %s, %s>::drain(..))" % (e, b),
+        "TypedSplice": "(return type of any_vec::AnyVecMut<'static, %s, %s>::splice(.., Vec<%s>))" % (e, b, e),
     }[ty]
 
 def run_auto(cases, rlib, deps):
@@ -166,6 +176,11 @@ def run_auto(cases, rlib, deps):
     lines = [PRELUDE.replace("#![allow", "#![allow"), HEAP_USE, AUTOREF, "fn main() {"]
     for i, c in enumerate(cases):
         q = "QS" if c["trait"] == "Send" else "QY"
+        if c["ty"] in ("TypedDrain", "TypedSplice"):
+            call = "t.drain(..)" if c["ty"] == "TypedDrain" else "t.splice(.., std::vec::Vec::<%s>::new())" % c["elem"]
+            lines.append('    println!("%d {}", ret_%s(|t: &\'static mut any_vec::AnyVecMut<\'static, %s, %s>| %s).v());'
+                         % (i, q.lower(), c["elem"], BACKEND_TY[c["backend"]], call))
+            continue
         lines.append('    println!("%d {}", <%s<%s>>::V);' % (i, q, type_expr(c)))
     lines.append("}")
     open(src, "w").write("\n".join(lines))
@@ -237,7 +252,7 @@ BACK_ATTR = {"Heap": (True, True), "Stack": (True, True), "StackN": (True, True)
              "UBnoSync": (True, False), "UMnoSend": (False, True), "UMnoSync": (True, False)}
 def view_need(c):
     """for typed views: which declared constraint the rule needs, and whether element and backend have what they need"""
-    if c["ty"] not in ("AnyVecRef", "AnyVecMut"):
+    if c["ty"] not in ("AnyVecRef", "AnyVecMut", "TypedDrain", "TypedSplice"):
         return {}
     need = "Sync" if (c["ty"] == "AnyVecRef" or c["trait"] == "Sync") else "Send"
     es, ey = ELEM_ATTR[c["elem"]]
@@ -547,17 +562,17 @@ def describe_borrow(c):
 
 
 # ----------------------------------------------------------------------------------------------------------------
-def run_c14_extra(tier, seed):
-    """unbounded, design-level argument for the cursor algebra (C14): Apalache discharges that IterCursor!IndInv is inductive.
+def _apalache_inductive(pid, module, what):
+    """unbounded, design-level argument: Apalache discharges that <module>!IndInv is inductive (Init => IndInv; IndInv /\\ Next => IndInv').
     Independent of /repo (it is about the specification); reported in the evidence, never turns the check red."""
-    wd = os.path.join(vlib.WORK, "apalache-c14")
+    wd = os.path.join(vlib.WORK, "apalache-" + pid.lower())
     os.makedirs(wd, exist_ok=True)
-    shutil.copy(os.path.join(vlib.SPEC, "IterCursor.tla"), wd)
+    shutil.copy(os.path.join(vlib.SPEC, module + ".tla"), wd)
     done = 0
     notes = []
     for args in (["--init=Init", "--inv=IndInv", "--length=0"], ["--init=IndInit", "--inv=IndInv", "--length=1"]):
         try:
-            r = subprocess.run(["timeout", "300", "apalache-mc", "check"] + args + ["IterCursor.tla"], cwd=wd, stdout=subprocess.PIPE, stderr=subprocess.STDOUT, text=True)
+            r = subprocess.run(["timeout", "300", "apalache-mc", "check"] + args + [module + ".tla"], cwd=wd, stdout=subprocess.PIPE, stderr=subprocess.STDOUT, text=True)
             ok = "EXITCODE: OK" in r.stdout
         except Exception as e:
             ok = False; notes.append(str(e))
@@ -566,7 +581,48 @@ def run_c14_extra(tier, seed):
             notes.append("apalache %s did not return OK" % " ".join(args))
     shutil.rmtree(wd, ignore_errors=True)
     for n in notes:
-        print("NOTE (C14, unbounded cursor argument): " + n)
-    cov = {"probes": 0, "apalache_inductive_invariant": {"module": "IterCursor.tla", "obligations": 2, "discharged": done,
+        print("NOTE (%s, unbounded %s argument): %s" % (pid, what, n))
+    cov = {"probes": 0, "apalache_inductive_invariant": {"module": module + ".tla", "obligations": 2, "discharged": done,
                                                          "cmd": "apalache-mc check --init=Init --inv=IndInv --length=0 ; --init=IndInit --inv=IndInv --length=1"}}
     return ([], cov), None
+
+def run_c14_extra(tier, seed):
+    return _apalache_inductive("C14", "IterCursor", "cursor")
+
+def run_c10_extra(tier, seed):
+    return _apalache_inductive("C10", "CapArith", "growth")
+
+
+# ----------------------------------------------------------------------------------------------------------------
+def run_c11_extra(tier, seed):
+    """Stack<SIZE> capacity formula and StackN<N,SIZE> build rule on a grid; observations from the harness, judged by StackGrid.tla"""
+    found, n = [], 0
+    for profile in (("release",) if tier == "quick" else ("release", "dev")):
+        binp, blog = vlib.build_harness(profile, True)
+        if binp is None:
+            raise ToolError("harness does not build: " + blog[-1500:])
+        r = subprocess.run([binp, "buildgrid"], stdout=subprocess.PIPE, stderr=subprocess.STDOUT, text=True)
+        if r.returncode != 0:
+            raise ToolError("buildgrid failed: " + r.stdout[-500:])
+        wd = os.path.join(vlib.WORK, "stackgrid")
+        os.makedirs(wd, exist_ok=True)
+        shutil.copy(os.path.join(vlib.SPEC, "StackGrid.tla"), wd)
+        grid = os.path.join(wd, "grid.ndjson")
+        lines = [l for l in r.stdout.split("\n") if l.startswith("{")]
+        open(grid, "w").write("\n".join(lines) + "\n")
+        open(os.path.join(wd, "G.cfg"), "w").write("INIT Init\nNEXT Next\nINVARIANT Report\nCHECK_DEADLOCK FALSE\n")
+        t = subprocess.run(["timeout", "300", "tlc", "-workers", "1", "-metadir", os.path.join(wd, "md"), "-cleanup", "-noGenerateSpecTE", "-config", "G.cfg", "StackGrid.tla"],
+                           cwd=wd, stdout=subprocess.PIPE, stderr=subprocess.STDOUT, text=True, env=dict(os.environ, GRID=grid))
+        if t.returncode != 0 or "Error:" in t.stdout:
+            raise ToolError("TLC failed on StackGrid: " + t.stdout[-1500:])
+        n += len(lines)
+        for line in t.stdout.split("\n"):
+            if line.startswith('"{'):
+                j = json.loads(json.loads(line))
+                o = j["obs"]
+                sig = {"pred": "capacity_formula" if o["kind"] == "stack" else "stackn_build_panics_iff", "op": "build", "backend": o["kind"], "esz": o["esz"],
+                       "config": "%s<%s%d>" % (o["kind"], ("%d," % o["n"]) if o["kind"] == "stackn" else "", o["size"]), "profile": profile}
+                found.append((sig, o, "%s with element size %d: observed %s capacity %s, the rule gives %s capacity %s"
+                              % (sig["config"], o["esz"], o["res"], o["cap"], j["expect"]["res"], j["expect"]["cap"]), json.dumps(j), o["res"]))
+        shutil.rmtree(wd, ignore_errors=True)
+    return (found, {"probes": n, "stack_grid_points": n}), None
